@@ -1,5 +1,7 @@
 import RPVerif.Lemmas.Sched
 import RPVerif.Lemmas.NodeList
+import RPVerif.Lemmas.SchedShape
+import RPVerif.Lemmas.SchedRun
 
 /-!
 # C02 — A granted placement has exactly the requested shape
@@ -87,5 +89,47 @@ theorem C02_nodelist_slot_shape (n n' : ANode) (rr : RR) (s : ASlot) (h : findSl
     split at he
     · exact ((scan_spec _ _ 0 _).2.1 e he).2.1
     · cases he
+
+/-! ## whole placements (several nodes) -/
+
+/-- **a granted placement covers exactly the requested ranks, each of the requested shape**: whatever
+    the node map (any occupancy), the starting node and the mode, what `schedule_task` returns has one
+    slot per rank; every slot lies on a node of the pilot and holds `cores_per_rank` cores, the
+    requested GPU amount (k whole GPUs / one GPU with exactly the share / none), storage and memory;
+    no node carries more slots than `slots_per_node`, hence never more than `ranks_per_node` -/
+theorem C02_placement (c : Cfg) (s : SchedSt) (r : Req) (slots : List Slot) (hw : NodesWF s.nodes) (hnn : NonNeg s.nodes)
+    (h : (scheduleTask c s r).1 = .ok (some slots)) :
+    slots.length = r.ranks.toNat
+    ∧ (∀ sl ∈ slots, SlotOK (cpsOf r) r sl ∧ ∃ n ∈ s.nodes, n.index = sl.node)
+    ∧ (∀ idx, slotsOn slots idx ≤ slotsPerNode c r (cpsOf r))
+    ∧ (r.rpn ≠ 0 → ∀ idx, slotsOn slots idx ≤ r.rpn) := by
+  have h1 := scheduleTask_shape c s r slots hnn h
+  refine ⟨h1.1, fun sl hs => ⟨h1.2.1 sl hs, (h1.2.2 sl hs).1⟩, fun idx => (scheduleTask_pernode c s r slots hw hnn h idx).1,
+          fun hr idx => (scheduleTask_pernode c s r slots hw hnn h idx).2 hr⟩
+
+/-- **colocation**: a task whose colocate tag already has a history is placed only on nodes of that
+    history, and the history recorded for the tag afterwards is the list of its own nodes - so by
+    induction every later task of the tag stays on nodes the first one got -/
+theorem C02_colocate (c : Cfg) (s : SchedSt) (r : Req) (tag : Nat) (l : List Nat) (slots : List Slot)
+    (hnn : NonNeg s.nodes) (ht : r.colo = some tag) (hh : s.coloHist.find? (fun e => e.1 = tag) = some (tag, l))
+    (h : (scheduleTask c s r).1 = .ok (some slots)) :
+    (∀ sl ∈ slots, sl.node ∈ l)
+    ∧ (scheduleTask c s r).2.coloHist.find? (fun e => e.1 = tag) = some (tag, slots.map (·.node)) :=
+  scheduleTask_colocate c s r tag l slots hnn ht hh h
+
+/-- both hold in every state the scheduling loop can reach (`RunOK` scripts): the hypotheses on the
+    node map are consequences of the global invariant -/
+theorem C02_placement_reachable (c : Cfg) (nodes0 : List NodeSt) (its : List Iter) (hw : NodesWF nodes0) (hnn : NonNeg nodes0)
+    (hok : RunOK c { nodes := nodes0 } true its) (r : Req) (slots : List Slot)
+    (h : (scheduleTask c (runLoop c { nodes := nodes0 } true its []).1 r).1 = .ok (some slots)) :
+    slots.length = r.ranks.toNat
+    ∧ (∀ sl ∈ slots, SlotOK (cpsOf r) r sl)
+    ∧ (r.rpn ≠ 0 → ∀ idx, slotsOn slots idx ≤ r.rpn) := by
+  have hinit : SInv nodes0 ({ nodes := nodes0 } : SchedSt) := ⟨hinv_init nodes0 hw hnn, rfl⟩
+  have hinv := runLoop_inv c nodes0 its _ true [] hinit hok
+  have hw' := hinv_wf nodes0 _ _ hinv.1
+  have hnn' := hinv_nonneg nodes0 _ _ hinv.1
+  have := C02_placement c _ r slots hw' hnn' h
+  exact ⟨this.1, fun sl hs => (this.2.1 sl hs).1, this.2.2.2⟩
 
 end RPVerif.C02
